@@ -1,24 +1,31 @@
-"""Full build: harness binary, regenerated tables, every Coq file (full .vo, never -vos)."""
-import os, sys
+"""Full build: per-property harness binaries, regenerated tables, every Coq file (full .vo, never -vos)."""
+import glob, json, os, sys
 sys.path.insert(0, os.path.dirname(os.path.abspath(__file__)))
 import vcheck
 
+failed = []
 with vcheck.Lock():
-    import glob, json
-    for cp in sorted(glob.glob(os.path.join(vcheck.ROOT, "props", "C*.json"))):
-        cfg = json.load(open(cp))
+    cfgs = [json.load(open(cp)) for cp in sorted(glob.glob(os.path.join(vcheck.ROOT, "props", "C*.json")))]
+    for cfg in cfgs:
         rc, out = vcheck.build_harness(cfg["id"], cfg)
-        print(cfg["id"], "harness build rc=%d" % rc, out[-2000:])
+        print(cfg["id"], "harness build rc=%d" % rc, out[-1500:])
         if rc != 0:
-            sys.exit("harness build failed for " + cfg["id"])
+            failed.append("harness build " + cfg["id"])
+            continue
         rc, out = vcheck.gen_tables(cfg["id"])
-        print(out)
+        print(out.strip())
     vcheck.refresh_coq_project()
-    rc, out = vcheck.sh(["make", "-j%d" % vcheck.NCPU, "-k"], cwd=vcheck.COQ, timeout=7200)
-    print(out[-6000:])
-    if rc != 0:
-        sys.exit("coq build failed")
-    bad = vcheck.grep_gate()
-    if bad:
-        print("\n".join(bad)); sys.exit("grep gate failed")
+    rc, out = vcheck.sh(["make", "-j%d" % vcheck.NCPU, "-k"], cwd=vcheck.COQ, timeout=10800)
+    print(out[-8000:])
+    # every claimed property must have its theorems and evaluator compiled
+    for cfg in cfgs:
+        for f in (cfg["props_file"][:-2] + ".vo", cfg.get("run_target")):
+            if f and not os.path.exists(os.path.join(vcheck.COQ, f)):
+                failed.append("%s: %s was not built" % (cfg["id"], f))
+        bad = vcheck.grep_gate([cfg["props_file"]] + ([cfg["run_target"][:-1]] if cfg.get("run_target") else []))
+        if bad:
+            failed.append("%s: %s" % (cfg["id"], "; ".join(bad)))
+if failed:
+    print("\n".join(failed))
+    sys.exit("setup failed")
 print("setup ok")
